@@ -11,6 +11,7 @@ import (
 
 	"panmc/internal/core"
 	"panmc/internal/panrun"
+	"panmc/internal/tk"
 )
 
 func init() {
@@ -19,6 +20,7 @@ func init() {
 		Level: "model_checking",
 		Rule: "every condition value of the pool (each built-in type at zero and non-zero, prototypes, bear children, typed descendants, objects with user-defined B) x 10 conditional constructs with tracing operands, " +
 			"and all ordered pairs of pool values for && and ||; expected behaviour derived from the single rule `c.B is the true object` evaluated in the same run, with B itself pinned for the documented zero values (falsy) and for 23 built-in non-zero values (truthy; incl. non-empty objects/maps/arrays without a public identifier-named key or with only falsy elements); operand identity by Go pointer; " +
+			"nested short-circuit expressions: every triple over 11 values x 10 ways of combining two operators of {&&, ||, !} x 3 spellings (fully parenthesised, by precedence, as the condition of if/else) with tracing operands - which operands run, in which order, and which operand is the result follow from the rule applied operator by operator; " +
 			"non-trivial = every (value, construct) and (value, value, operator) instance; distinct = distinct source; round 7: The pool pins negative zeros of five origins as zero values and holds objects whose B yields a non-boolean; constructs also include `!!c`, `!(!c)`, `c.!` and `x if !!c else y`.; round 8: One conditional written once inside a function is evaluated three times with conditions of alternating truth (18 constructs x 61 value triples); guards are looked at once and where the statement stands (traced guards, guard variables changed afterwards); function descendants are truthy.",
 		Assumptions: []string{
 			"a B that fails (Func.B, BaseObj) counts as not-true (the rule says: true exactly when B yields true)",
@@ -376,6 +378,152 @@ func checkStateful(c *core.Ctx) {
 	}
 }
 
+// ---------------------------------------------------------------- nested short-circuit expressions
+
+// Every triple of values under the eight ways of combining two short-circuit operators (and `!`): which operands are
+// evaluated, in which order, and which operand is the result follow from the rule applied operator by operator.
+type sc struct {
+	op   string // "&&", "||", "!", or "" for a leaf
+	l, r *sc
+	leaf int
+}
+
+func (e *sc) src(vals [3]int) string {
+	switch e.op {
+	case "":
+		return fmt.Sprintf("tr(\"%c\", %s)", 'a'+e.leaf, againVals[vals[e.leaf]].src)
+	case "!":
+		return "!(" + e.l.src(vals) + ")"
+	}
+	return "(" + e.l.src(vals) + " " + e.op + " " + e.r.src(vals) + ")"
+}
+
+// flat is the spelling without the parentheses that precedence makes redundant (&& binds tighter than ||).
+func (e *sc) flat(vals [3]int, parent string) string {
+	switch e.op {
+	case "":
+		return fmt.Sprintf("tr(\"%c\", %s)", 'a'+e.leaf, againVals[vals[e.leaf]].src)
+	case "!":
+		return "!(" + e.l.flat(vals, "  ") + ")"
+	}
+	s := e.l.flat(vals, e.op+"L") + " " + e.op + " " + e.r.flat(vals, e.op+"R")
+	need := false
+	switch {
+	case parent == "!":
+		need = true
+	case e.op == "||" && strings.HasPrefix(parent, "&&"):
+		need = true
+	case e.op == parent[:min2(2, len(parent))] && strings.HasSuffix(parent, "R"):
+		need = true // a right-nested operand of the same (left-associative) operator
+	}
+	if need {
+		return "(" + s + ")"
+	}
+	return s
+}
+
+func min2(a, b int) int {
+	if a < b {
+		return a
+	}
+	return b
+}
+
+// eval returns (trace, truthy, repr): repr "true"/"false" for the result of `!`.
+func (e *sc) eval(vals [3]int) (string, bool, string) {
+	switch e.op {
+	case "":
+		v := againVals[vals[e.leaf]]
+		return string(rune('a'+e.leaf)) + "\n", v.truthy, v.repr
+	case "!":
+		t, b, _ := e.l.eval(vals)
+		if b {
+			return t, false, "false"
+		}
+		return t, true, "true"
+	}
+	t, b, r := e.l.eval(vals)
+	if (e.op == "&&") != b {
+		return t, b, r
+	}
+	t2, b2, r2 := e.r.eval(vals)
+	return t + t2, b2, r2
+}
+
+func mixedShapes() []*sc {
+	l := func(i int) *sc { return &sc{leaf: i} }
+	bin := func(op string, a, b *sc) *sc { return &sc{op: op, l: a, r: b} }
+	not := func(a *sc) *sc { return &sc{op: "!", l: a} }
+	return []*sc{
+		bin("||", bin("&&", l(0), l(1)), l(2)), bin("||", l(0), bin("&&", l(1), l(2))), bin("&&", bin("||", l(0), l(1)), l(2)), bin("&&", l(0), bin("||", l(1), l(2))),
+		bin("||", bin("||", l(0), l(1)), l(2)), bin("&&", bin("&&", l(0), l(1)), l(2)), bin("||", l(0), bin("||", l(1), l(2))), bin("&&", l(0), bin("&&", l(1), l(2))),
+		bin("||", bin("&&", not(l(0)), l(1)), l(2)), bin("&&", not(bin("||", l(0), l(1))), l(2)),
+	}
+}
+
+func checkMixed(c *core.Ctx) {
+	shapes := mixedShapes()
+	type mc struct {
+		sh   int
+		vals [3]int
+		mode int
+	}
+	var cases []mc
+	var bodies []string
+	k := 0
+	n := len(againVals)
+	for sh := range shapes {
+		for a := 0; a < n; a++ {
+			for b := 0; b < n; b++ {
+				for d := 0; d < n; d++ {
+					for mode := 0; mode < 3; mode++ {
+						k++
+						if !c.Mine(k) {
+							continue
+						}
+						vals := [3]int{a, b, d}
+						var body string
+						switch mode {
+						case 0:
+							body = shapes[sh].src(vals)
+						case 1:
+							body = shapes[sh].flat(vals, "  ")
+						default:
+							body = "\"T\" if " + shapes[sh].flat(vals, "  ") + " else \"F\""
+						}
+						cases = append(cases, mc{sh, vals, mode})
+						bodies = append(bodies, body)
+					}
+				}
+			}
+		}
+	}
+	obs := tk.Queries(c, prelude, bodies)
+	for i, o := range obs {
+		if o.Kind == "skipped" {
+			continue
+		}
+		c.Eval(1)
+		c.Nontrivial(1)
+		c.Validated(1)
+		if o.Kind == "syntax" {
+			c.HarnessError("mixed short-circuit expression does not parse: %s: %s", bodies[i], o.ErrMsg)
+			return
+		}
+		m := cases[i]
+		wantOut, truthy, wantRes := shapes[m.sh].eval(m.vals)
+		if m.mode == 2 {
+			wantRes = map[bool]string{true: `"T"`, false: `"F"`}[truthy]
+		}
+		ok := o.Kind == "value" && o.Repr == wantRes && o.Out == wantOut
+		c.Outcome("mixed:" + map[bool]string{true: "ok", false: "differs"}[ok])
+		if !ok {
+			c.Violation(core.Violation{Key: fmt.Sprintf("nested-short-circuit/shape%d/%s", m.sh, []string{"parenthesised", "by-precedence", "as-condition"}[m.mode]), Case: core.JSON(tcase{Kind: "mixed", I: m.sh, J: m.mode, Again: m.vals[:]}), Desc: bodies[i],
+				Expected: fmt.Sprintf("out=%q result=%s", wantOut, wantRes), Observed: fmt.Sprintf("out=%q %s", o.Out, show(o)), Repro: prelude + "(" + bodies[i] + ").p\n"})
+		}
+	}
+}
+
 func run(c *core.Ctx) {
 	p := pool(true)
 	c.Note("pool_size", len(p))
@@ -395,6 +543,7 @@ func run(c *core.Ctx) {
 	}
 	checkAgain(c)
 	checkStateful(c)
+	checkMixed(c)
 }
 
 func replay(c *core.Ctx, raw json.RawMessage) {
@@ -409,6 +558,10 @@ func replay(c *core.Ctx, raw json.RawMessage) {
 	}
 	if t.Kind == "stateful" {
 		checkStateful(c)
+		return
+	}
+	if t.Kind == "mixed" {
+		checkMixed(c)
 		return
 	}
 	checkValue(c, t.Vals, 0, t.Kind == "pair")
